@@ -1,7 +1,7 @@
 SPECIFICATION TraceSpec
 CONSTANTS
   Cap = 2
-  SegCap = 2
+  SegCaps = {1, 2, 3}
   FixStale = TRUE
 POSTCONDITION Done
 CHECK_DEADLOCK FALSE
